@@ -128,6 +128,9 @@ fn candidates(sc: &Scenario) -> Vec<Scenario> {
         }
     }
     // history
+    if sc.immediate_p != 0 {
+        push(&|c| c.immediate_p = 0);
+    }
     if sc.token_repr != 0 {
         push(&|c| c.token_repr = 0);
     }
